@@ -398,7 +398,10 @@ pub fn c07(tier: &str, seed: u64) -> Vec<Case> {
         // the writer-based entry point at a non-zero offset emits the same message
         let large = matches!(tag.as_str(), "big" | "boundary-16383" | "many-names" | "many-suffixes" | "max-size");
         if comp.len() < 3000 || large {
-            for start in [2usize, 13] {
+            // (a message appended to a log or a capture file starts far into the stream: at, just below and beyond the
+            // 14-bit range the pointers count in - from the message's own first byte)
+            let starts: &[usize] = if comp.len() < 3000 && v.len() % 5 == 0 { &[2, 13, 16383, 16384, 70000] } else { &[2, 13] };
+            for &start in starts {
                 let mut cur = Cursor::new(vec![0xEEu8; start]);
                 cur.set_position(start as u64);
                 let ok = p.write_compressed_to(&mut cur).is_ok();
